@@ -833,6 +833,35 @@ def m_long(I, t):
     return t.cast("long")
 
 
+@method("new_full", func=False)
+def m_new_full(I, t, size, fill_value, **k):
+    return CT(obj_array(fill_value, _shape_args((size,))), dtype_tag(k.get("dtype"), t.dtype))
+
+
+def f_nonzero(I, t, as_tuple=False):
+    """torch.nonzero of a 1-D mask with symbolic entries: the result's shape depends on the data, so the paths split on every
+    entry (2^L paths); on each path the indices are concrete, in increasing order (documented: lexicographic order)."""
+    if as_tuple or len(t.shape) != 1:
+        raise Unsupported("nonzero of a tensor that is not 1-D / as_tuple")
+    idx = []
+    for i, v in enumerate(t.a):
+        c = v if t.dtype == "bool" else (to_z3(v) != 0)
+        if isinstance(c, (bool, np.bool_)):
+            hit = bool(c)
+        else:
+            hit = I.ex.branch(c)
+        if hit:
+            idx.append(i)
+    a = np.empty((len(idx), 1), dtype=object)
+    for r, i in enumerate(idx):
+        a[r, 0] = i
+    return CT(a, "long")
+
+
+FUNCS["torch.nonzero"] = METHODS["nonzero"] = f_nonzero
+_c("nonzero(1-D): indices of the true entries in increasing order")
+
+
 @method("bool", func=False)
 def m_bool(I, t):
     return t.cast("bool")
